@@ -105,16 +105,8 @@ theorem filterAnnotations_annShape (keep : String → Bool) (dk cm A : Kvs) :
   rw [metaGet_annShape]
   simp [annShape, metaSet, lookup_insert_same, insert_insert]
 
-/-- extra (handler) fields stay out of `metadata.annotations` (and do not take `metadata` whole). -/
-def ExtraAnnOK (extra : List (List String)) : Prop :=
-  ∀ f, f ∈ extra → (∃ k ks, f = k :: ks ∧ k ≠ "metadata") ∨
-    (∃ k2 ks, f = "metadata" :: k2 :: ks ∧ k2 ≠ "annotations")
-
 section
 variable {kvs m A A' : Kvs} {k0 : String} {p0 : List Char}
-
-/-- the body after a write to `metadata.annotations` that replaces the mapping `A` by `A'`. -/
-def withAnn (kvs m A' : Kvs) : Kvs := J.insert "metadata" (.obj (J.insert "annotations" (.obj A') m)) kvs
 
 theorem resolveE_withAnn_other (hm : lookup "metadata" kvs = some (.obj m)) (f : List String)
     (hf : (∃ k ks, f = k :: ks ∧ k ≠ "metadata") ∨ (∃ k2 ks, f = "metadata" :: k2 :: ks ∧ k2 ≠ "annotations")) :
@@ -131,10 +123,11 @@ theorem resolveE_MA (hm : lookup "metadata" kvs = some (.obj m)) (ha : lookup "a
     resolveE (.obj kvs) MA = .ok (.obj A) := by
   simp [MA, resolveE, hm, ha]
 
-theorem baseBuild_withAnn (ig extra : List (List String))
+theorem baseBuild_withAnn_of_filter (ig extra : List (List String))
     (hm : lookup "metadata" kvs = some (.obj m)) (ha : lookup "annotations" m = some (.obj A))
-    (hd : A'.filter (fun kv => kv.1 != k0) = A.filter (fun kv => kv.1 != k0))
-    (hp0 : pfx k0 = some p0) (hr : Robust A k0 p0) (hx : ExtraAnnOK extra) :
+    (hfilt : A'.filter (fun kv => keepAnnotation (markedPrefixes (keys A')) kv.1) =
+      A.filter (fun kv => keepAnnotation (markedPrefixes (keys A)) kv.1))
+    (hx : ExtraAnnOK extra) :
     baseBuild ig extra (.obj (withAnn kvs m A')) = baseBuild ig extra (.obj kvs) := by
   rw [baseBuild_eq, baseBuild_eq, cherrypick_two, cherrypick_two]
   have he4 : erase4 (withAnn kvs m A') = erase4 kvs := erase4_insert_metadata _ kvs
@@ -153,9 +146,34 @@ theorem baseBuild_withAnn (ig extra : List (List String))
       change tailBuild ig extra (.obj (withAnn kvs m A')) (annShape dk cm (.obj A')) =
         tailBuild ig extra (.obj kvs) (annShape dk cm (.obj A))
       simp only [tailBuild, stage2, annPrefixes, metaOK_annShape, metaGet_annShape, filterAnnotations_annShape,
-        filter_marked_eq hd hp0 hr]
+        hfilt]
       rw [cherrypick_congr (.obj (withAnn kvs m A')) (.obj kvs) extra _
         (fun f hf => resolveE_withAnn_other hm f (hx f hf))]
+
+theorem baseBuild_withAnn (ig extra : List (List String))
+    (hm : lookup "metadata" kvs = some (.obj m)) (ha : lookup "annotations" m = some (.obj A))
+    (hd : A'.filter (fun kv => kv.1 != k0) = A.filter (fun kv => kv.1 != k0))
+    (hp0 : pfx k0 = some p0) (hr : Robust A k0 p0) (hx : ExtraAnnOK extra) :
+    baseBuild ig extra (.obj (withAnn kvs m A')) = baseBuild ig extra (.obj kvs) :=
+  baseBuild_withAnn_of_filter ig extra hm ha (filter_marked_eq hd hp0 hr) hx
+
+theorem essence_withAnn_of_filter (cfg : Cfg) (extra : List (List String))
+    (hm : lookup "metadata" kvs = some (.obj m)) (ha : lookup "annotations" m = some (.obj A))
+    (hfilt : A'.filter (fun kv => keepAnnotation (markedPrefixes (keys A')) kv.1) =
+      A.filter (fun kv => keepAnnotation (markedPrefixes (keys A)) kv.1))
+    (hx : ExtraAnnOK extra) :
+    essence cfg extra (.obj (withAnn kvs m A')) = essence cfg extra (.obj kvs) := by
+  have hb := fun ig => baseBuild_withAnn_of_filter (A' := A') ig extra hm ha hfilt hx
+  have hdrs : isDRS (.obj (withAnn kvs m A')) = isDRS (.obj kvs) := by
+    simp only [isDRS, get?, withAnn, lookup_insert_other _ kvs (by decide : "kind" ≠ "metadata"), lookup_insert_same, hm,
+      lookup_insert_other _ m (by decide : "ownerReferences" ≠ "annotations")]
+  simp only [essence]
+  cases hdb : cfg.diffbase with
+  | leaf l =>
+    cases l with
+    | annotations p k v1 ig => simp only [diffbaseBuild, leafBuild, hb, markKey, hdrs]
+    | status f ig => simp only [diffbaseBuild, leafBuild, hb]
+  | multi ls => simp only [diffbaseBuild, hb]
 
 theorem isDRS_withAnn (hm : lookup "metadata" kvs = some (.obj m)) :
     isDRS (.obj (withAnn kvs m A')) = isDRS (.obj kvs) := by
